@@ -198,7 +198,45 @@ class Terms(object):
             alts.add(self._def_term(func, d, name, env, depth, node))
         if len(alts) == 1:
             return next(iter(alts))
+        if len(ds) == 2 and node is not None:
+            gt = self._guarded(func, node, name, list(ds), env, depth)
+            if gt is not None:
+                return gt
         return ("phi", frozenset(alts))
+
+    def _guarded(self, func, node, name, ds, env, depth):
+        """Two definitions merging at `node` that are separated by one `if`: the value is a conditional term
+        (`if c: x = a` after `x = b`, or `if c: x = a else: x = b`) instead of an unordered phi."""
+        g = self.ctx.cfg(func)
+        for a, b in ((ds[0], ds[1]), (ds[1], ds[0])):
+            if a.node is g.entry:
+                continue
+            for tn in g.nodes:
+                if tn.kind != "test" or not isinstance(tn.ast, ast.If) or tn.loops != node.loops or not g.dominates([tn], node) or not g.dominates([tn], a.node):
+                    continue
+                for lab, other in (("true", "false"), ("false", "true")):
+                    arm = g.reach_from_edge(tn, lab, exc=False)
+                    rest = g.reach_from_edge(tn, other, exc=False)
+                    if a.node not in arm or a.node in rest:
+                        continue
+                    starts = [d for d, l in g.succ[tn] if l == lab]
+                    if node in g.reach(starts, avoid=[a.node], exc=False, include_start=True):
+                        continue          # the arm can reach the use without passing a
+                    if b.node is g.entry or (b.node is not tn and g.dominates([b.node], tn) and b.node not in g.reach([tn], exc=False)):
+                        pass              # b is the value before the `if`
+                    elif b.node in rest and b.node not in arm:
+                        ostarts = [d for d, l in g.succ[tn] if l == other]
+                        if node in g.reach(ostarts, avoid=[b.node], exc=False, include_start=True):
+                            continue
+                    else:
+                        continue
+                    ta = self._def_term(func, a, name, env, depth, node)
+                    tb = self._def_term(func, b, name, env, depth, node)
+                    if ta == tb:
+                        return ta
+                    cond = self.cond_key(func, tn, tn.ast.test, env, depth)
+                    return ("ite", cond, ta, tb) if lab == "true" else ("ite", cond, tb, ta)
+        return None
 
     def _decided_arm(self, func, d, use_node):
         """`x = a if c else b` read at use_node: when the must-facts there decide c (and nothing c reads was redefined since
@@ -486,22 +524,38 @@ class Terms(object):
 
     # -- calls -------------------------------------------------------------------------------------------
     def inline_return(self, callee, env, depth):
-        """Term returned by callee under parameter bindings env (phi over its live return statements)."""
+        """Term returned by callee under parameter bindings env: the returns are combined into conditional terms along the
+        tests that separate them (`if c: return a` ; `return b` gives ite(c, a, b)); a phi where no test separates them."""
         ctx = self.ctx
         g = ctx.cfg(callee)
         live = set(g.live_nodes())
-        alts = []
-        for n in g.nodes:
-            if n in live and n.kind == "stmt" and isinstance(n.ast, ast.Return):
-                if n.ast.value is None:
-                    alts.append(C(None))
-                else:
-                    alts.append(self.term(callee, n, n.ast.value, env, depth))
-        if g.exit in g.reach([g.entry], avoid=[n for n in g.nodes if n.kind == "stmt" and isinstance(n.ast, ast.Return)], exc=False, include_start=True):
-            alts.append(C(None))
-        if not alts:
+        rets = [n for n in g.nodes if n in live and n.kind == "stmt" and isinstance(n.ast, ast.Return)]
+        falls = g.exit in g.reach([g.entry], avoid=[n for n in g.nodes if n.kind == "stmt" and isinstance(n.ast, ast.Return)], exc=False, include_start=True)
+        if not rets and not falls:
             return ("noreturn",)
-        return self.phi(alts)
+
+        def rterm(n):
+            return C(None) if n.ast.value is None else self.term(callee, n, n.ast.value, env, depth)
+
+        def build(group, tests):
+            if len(group) == 1:
+                return rterm(group[0])
+            for k, tn in enumerate(tests):
+                tr = g.reach_from_edge(tn, "true", exc=False)
+                fa = g.reach_from_edge(tn, "false", exc=False)
+                a = [r for r in group if r in tr and r not in fa]
+                b = [r for r in group if r in fa and r not in tr]
+                if a and b and len(a) + len(b) == len(group):
+                    ta, tb = build(a, tests[k + 1:]), build(b, tests[k + 1:])
+                    if ta == tb:
+                        return ta
+                    return ("ite", self.cond_key(callee, tn, tn.ast.test, env, depth), ta, tb)
+            return self.phi([rterm(r) for r in group])
+
+        tests = [n for n in g.nodes if n in live and n.kind == "test" and isinstance(n.ast, ast.If) and not n.loops]
+        if falls:
+            return self.phi([rterm(r) for r in rets] + [C(None)])
+        return build(rets, tests)
 
     def _call(self, func, node, e, env, depth):
         ctx = self.ctx
